@@ -30,6 +30,9 @@ def cases(tier, seed):
     for i, cd in enumerate(c01.alias_family()):
         if i % (3 if tier == "quick" else 1) == 0:
             yield {"c": cd, "A": {}, "approx": False}
+    for i, cd in enumerate(gen.template_family()):
+        if i % (4 if tier == "quick" else 1) == 0:
+            yield {"c": cd, "A": {}, "approx": False}
     # zero startpoints
     yield {"c": {"name": "k", "nodes": [["k0", "0", False], ["k1", "1", False], ["g", "and", True]],
                  "edges": [["k0", "g"], ["k1", "g"]], "bbs": {}}, "A": {}, "approx": True}
